@@ -4,7 +4,7 @@ from __future__ import annotations
 
 import ast
 
-from sa.cfg import ALL_GROUPS, CFG, G_BASE, G_EXC, G_PAUSE, N, all_paths_pass, both, dominators, find_path, fmt_path, reachable, reaches, specialize
+from sa.cfg import ALL_GROUPS, CFG, G_BASE, G_EXC, G_PAUSE, N, all_paths_pass, both, dominators, eval_test, find_path, fmt_path, reachable, reaches, specialize, test_atoms
 from sa.db import AnalysisError, FuncInfo, bind_args, dotted, src, walk_local
 from sa.flow import _Proj, assigned_names, defs_reaching, forward_states, reaching_defs
 from sa.model import contains, enclosing, execute_impl_funcs, superstep_funcs, template_classes
@@ -310,6 +310,47 @@ def run(ctx) -> None:
                                             if v is None or not any(isinstance(x, ast.Name) and x.id == h.name for x in ast.walk(v)):
                                                 ok = False
                             rep.add("C12.R2", f"{m.qname}:end-status:error@{_pos(cfg, n)}", ok, f"{m.module.rel}:{n.lineno}", "error path reports the handled exception" if ok else "run-end on the error path does not carry the handled exception")
+
+    # the status a RunEnd carries is decided by whether an exception was handed in, not by anything derived
+    # from it (its message, its args): a failure whose exception has an empty message is still a failure
+    from sa.cfg import single_defs
+
+    n_builders = 0
+    for f in db.funcs_in("hypergraph.runners"):
+        for c in db.calls_in(f):
+            if (dotted(c.func) or "").split(".")[-1] != "RunEndEvent":
+                continue
+            kw = {k.arg: k.value for k in c.keywords}
+            if "status" not in kw:
+                continue
+            n_builders += 1
+            defs = single_defs(ctx.cfg(f))
+
+            def look(e, depth=0):
+                while isinstance(e, ast.Name) and e.id in defs and depth < 4:
+                    e, depth = defs[e.id], depth + 1
+                return e
+
+            st = look(kw["status"])
+            why = None
+            if not isinstance(st, ast.IfExp):
+                why = f"status is not chosen by a conditional on the handed-in exception ('{src(st)[:50]}')"
+            else:
+                for a in test_atoms(st.test):
+                    subj = a.left if isinstance(a, ast.Compare) and len(a.ops) == 1 and isinstance(a.ops[0], (ast.Is, ast.IsNot)) and isinstance(a.comparators[0], ast.Constant) and a.comparators[0].value is None else a
+                    subj = look(subj)
+                    if not (isinstance(subj, ast.Name) and subj.id in f.param_names):
+                        why = f"status is decided by '{src(subj)[:50]}', a value derived from the exception rather than its presence: a failure with an empty message is reported as completed"
+                        break
+                if why is None:
+                    pname = next((look(x).id for x in ast.walk(st.test) if isinstance(look(x), ast.Name) and look(x).id in f.param_names), None)
+                    present = eval_test(st.test, {pname: True, f"{pname} is None": False, f"{pname} is not None": True})
+                    chosen = st.body if present else st.orelse
+                    if present is None or "fail" not in src(chosen).lower():
+                        why = f"with an exception present the status is '{src(chosen)[:40]}'"
+            rep.add("C12.R2", f"{f.qname}:status-by-presence", why is None, f"{f.module.rel}:{c.lineno}", "RunEnd status is failed exactly when an exception was handed in" if why is None else why)
+    if n_builders < 2:
+        raise AnalysisError(f"RunEndEvent builders not recognised ({n_builders})")
 
     # ---- R3 -------------------------------------------------------------------
     tmpl_methods = template_methods(db, "run") + template_methods(db, "map")
